@@ -246,7 +246,9 @@ impl Portable {
     /// `blots prog1 | blots prog2` with a function that only uses the textual prelude
     fn cli_chain(&self, c: &Case, text: &str, ctx: &mut Ctx) -> Outcome {
         fn uses_pool(e: &E) -> bool {
-            matches!(e, E::Id(n) if n.starts_with('c') && n.len() <= 3 && n != "c") || e.children().iter().any(|x| uses_pool(x))
+            let pool_name = |n: &str| n.starts_with('c') && n.len() <= 3 && n != "c";
+            let short = matches!(e, E::Rec(items) if items.iter().any(|i| matches!(i, crate::gen_::expr::RE::Short(n) if pool_name(n))));
+            short || matches!(e, E::Id(n) if pool_name(n)) || e.children().iter().any(|x| uses_pool(x))
         }
         if uses_pool(&c.func) {
             return Ok(());
